@@ -70,12 +70,14 @@ def unicode_doc(max_lines, maxlen):
     return G.weighted((3, leader), (1, bare))
 
 
-def strategy(tier):
+def strategy(tier, repeat=None):
     ml, mx = (8, 60) if tier == "quick" else (30, 200)
     doc = unicode_doc(ml, mx)
     p = G.Profile(doc=doc, p_doc_mostly=True, max_items=6 if tier == "quick" else 8, depth=3, dangling=False, dups=True, impl_doc=True, weights={"class": 2},
                   body_max=3, moddoc_indent=st.one_of(st.just(""), st.just(""), st.text(alphabet=" \t", max_size=12)))
-    return st.fixed_dictionaries({"module": G.module(p), "layout": G.layout_choices(24)})
+    if repeat is not None:
+        p.p_doc_mostly = True
+    return st.fixed_dictionaries({"module": G.module(p, repeat), "layout": G.layout_choices(24)})
 
 
 def _owners(module):
@@ -239,6 +241,12 @@ def prepare(module):
         hdr = "@module" + (" " + mod["moddoc"]["name"] if mod["moddoc"].get("name") else "")
         mod["moddoc"]["lines"] = [l.replace("<<P0>>", "x").replace("<<HDR>>", hdr) for l in mod["moddoc"]["lines"]]
     return mod
+
+
+def extra(ctx):
+    """A few modules of hundreds of items: the drawn item list is tiled 25..45 times, every copy with names of its own."""
+    from .common import large_campaign
+    large_campaign(ctx, strategy("quick", repeat=st.integers(25, 45)), evaluate, 4 if ctx.tier == "quick" else 32)
 
 
 def evaluate(case):
